@@ -462,7 +462,10 @@ impl HWorld {
                             .iter()
                             .filter(|o| o.val == v && !matches!(o.place, Place::Gone))
                             .filter(|o| match o.kind {
-                                Kind::Created | Kind::Received(_) => true,
+                                Kind::Created => true,
+                                // Once the provider is gone a handle that came back over a connection reaches
+                                // the value only if it had arrived before; not counted (conservative).
+                                Kind::Received(_) => !prov_dropped,
                                 Kind::Carrier(r) => !self.regs[r].consumed && !prov_dropped && self.link_alive(self.regs[r].link),
                             })
                             .count();
